@@ -35,6 +35,15 @@ def to_tv(v):
     return None      # numbers / bools: `.other`
 
 
+# the rest of Cargo.toml is ignored — also when it *mentions* the section header (a comment, a description, another tool's table)
+HEADER_MENTIONS_BEFORE = ["# the i18n settings are in [package.metadata.leptos-i18n] below\n",
+                          "description = \"configured by [package.metadata.leptos-i18n]\"\n",
+                          "\n[package.metadata.docs]\nnote = \"[package.metadata.leptos-i18n] holds the locales\"  # [package.metadata.leptos-i18n]\n"]
+HEADER_MENTIONS_AFTER = ["\n# see [package.metadata.leptos-i18n] above\n",
+                         "\n[package.metadata.other]\nnote = \"see [package.metadata.leptos-i18n]\"\n",
+                         "\n[package.metadata.other]\n# like [package.metadata.leptos-i18n]\ndefault = \"zz\"\nlocales = [\"zz\"]\n"]
+
+
 def manifest(fields, before="", after="", section=True):
     s = '[package]\nname = "p"\nversion = "0.1.0"\n' + before
     if section:
@@ -133,8 +142,8 @@ def gen_cases(ctx, rng):
             if fields:
                 fields[i] = (fields[i][0], rng.pick([5, True, "str", ["a", 1]]))
         fields = rng.shuffle(fields)
-        before = rng.pick(["", "", "\n[dependencies]\nserde = \"1\"\n", "\n[package.metadata.other]\ndefault = \"zz\"\n"])
-        after = rng.pick(["", "", "\n[dependencies]\nleptos = \"0.7\"\n", "\n[package.metadata.leptos-i18n.extra]\nx = 1\n", "\n[features]\ndefault = []\n"])
+        before = rng.pick(["", "", "\n[dependencies]\nserde = \"1\"\n", "\n[package.metadata.other]\ndefault = \"zz\"\n"] + HEADER_MENTIONS_BEFORE)
+        after = rng.pick(["", "", "\n[dependencies]\nleptos = \"0.7\"\n", "\n[package.metadata.leptos-i18n.extra]\nx = 1\n", "\n[features]\ndefault = []\n"] + HEADER_MENTIONS_AFTER)
         cases.append((fields, before, after))
     return cases
 
@@ -169,6 +178,8 @@ def run(ctx):
     default_first_stage(ctx, rng, binp)
     cases = gen_cases(ctx, rng)
     corpus = [([("default", "en"), ("locales", ["fr"]), ("inherits", {"fr": "en"})], "", "")]     # F12
+    corpus += [([("default", "en"), ("locales", ["en", "fr"])], b, "") for b in HEADER_MENTIONS_BEFORE]      # C19-header-mention
+    corpus += [([("default", "en"), ("locales", ["en", "fr"])], "", a) for a in HEADER_MENTIONS_AFTER]
     cases = corpus + cases
     reqs = [{"op": "config", "cargo_toml": manifest(f, b, a), "files": []} for f, b, a in cases]
     reqs.append({"op": "config", "cargo_toml": manifest([], section=False), "files": []})
